@@ -242,6 +242,10 @@ class C06(Check):
         self.s45(mod, wname, wfn)
         self.s6(entry)
         self.s6_module(mod)
+        # the consumers of the translator (code generators, symbolic model) rename arguments too when they are restructured: same rule there
+        for rel_ in ("meta/codegen_model.py", "meta/codegen_mxlpy.py", "meta/sympy_tools.py", "symbolic/symbolic_model.py"):
+            if rel_ in self.prog.sources:
+                self.s6_module(self.prog.module(rel_), rel_)
         self.s7(mod)
         self.s12(mod)
         self.s13(mod, wname, wfn)
@@ -479,8 +483,9 @@ class C06(Check):
             self.violated("S6", MOD, "fn_to_sympy", "argument-renaming", c, f"`{norm(c)[:70]}` substitutes sequentially: overlapping old/new names are mixed up",
                           witness="f(x, y) = x - y with model_args [y, x] translates to 0")
 
-    def s6_module(self, mod) -> None:
+    def s6_module(self, mod, rel: str = MOD) -> None:
         """every multi-name substitution anywhere in the translator is simultaneous"""
+        n_mod = 0
         for fname, f in mod.functions.items():
             for c in walk_no_nested(f):
                 if not (isinstance(c, ast.Call) and isinstance(c.func, ast.Attribute) and c.func.attr == "subs"):
@@ -490,9 +495,13 @@ class C06(Check):
                 kw = {k.arg: norm(k.value) for k in c.keywords}
                 if len(c.args) >= 2 or kw.get("simultaneous") == "True":
                     continue  # a single (old, new) pair cannot interfere with itself
-                self.violated("S6", MOD, fname, f"substitution {norm(c.args[0])[:40] if c.args else ''}", c,
+                n_mod += 1
+                self.violated("S6", rel, fname, f"substitution {norm(c.args[0])[:40] if c.args else ''}", c,
                               f"`{norm(c)[:80]}` substitutes several names sequentially: when a replacement mentions a name that is replaced later, the result is mixed up",
                               witness="ratio(a, b) = a/(1+b) called as ratio(b, a) translates to a/(a+1)")
+
+        if rel != MOD and n_mod == 0:
+            self.holds("S6", rel, "<module>", "substitutions", mod.tree, "no sequential multi-name substitution in this module")
 
     # ---- S7
     def s7(self, mod) -> None:
